@@ -1,8 +1,6 @@
 package main
 
 import (
-	"sync/atomic"
-	"syscall"
 	"bufio"
 	"bytes"
 	"context"
@@ -15,9 +13,13 @@ import (
 	"net/url"
 	"strings"
 	"sync"
+	"sync/atomic"
+	"syscall"
 	"time"
 
+	"github.com/vulcand/oxy/v2/cbreaker"
 	"github.com/vulcand/oxy/v2/forward"
+	"github.com/vulcand/oxy/v2/roundrobin"
 	"github.com/vulcand/oxy/v2/utils"
 )
 
@@ -25,7 +27,7 @@ func init() {
 	register(&Property{
 		ID:    "C16",
 		Level: "fault_enumeration",
-		Rule: "scripted raw-TCP backend whose bytes the harness knows, behind forward.New wrapped in NewStateListener and a status-recording writer under a real http.Server; response shapes: statuses 200-599, 0-10 headers, bodies 0..2MB, Content-Length or chunked with chunk patterns; fault kinds x positions: connection refused, close / RST at {accept, after the request was read, mid-head, after the head, mid-body at byte k, before the last chunk}, garbage head, stall beyond ResponseHeaderTimeout, client cancel before the head and mid-body; " +
+		Rule: "scripted raw-TCP backend whose bytes the harness knows, behind forward.New wrapped in NewStateListener and a status-recording writer under a real http.Server; response shapes: statuses 200-599, 0-10 headers, bodies 0..2MB, Content-Length or chunked with chunk patterns; fault kinds x positions: connection refused, close / RST at {accept, after the request was read, mid-head, after the head, mid-body at byte k, before the last chunk}, garbage head, stall beyond ResponseHeaderTimeout, stall in the middle of the response head detected by an idle deadline on the backend connection, client cancel before the head and mid-body; " +
 			"expected client view and status mapping computed from the script (502 when no response byte was received, 504 on header timeout, 499 recorded for a cancelled client, 500 or 502 for a damaged head, the head plus a prefix of the body and never extra bytes for a failure after the head); every 'connected' must be followed by exactly one 'disconnected'; a probe request must succeed after each fault; non-trivial = case with a fault or a body >= 64kB or chunked framing; distinct by (fault kind, position, response shape)",
 		Assumptions: []string{"hang watchdog of 60s per request (here a hang is a violation, by the statement)", "ResponseHeaderTimeout of the proxy's transport set to 150ms to make the timeout class reachable"},
 		Parts: []Part{{Name: "relay", Shards: 12, Fn: c16Relay},
@@ -42,7 +44,9 @@ type c16Plan struct {
 	ChunkSize int    `json:"chunk_size"`
 	CutAt     int    `json:"cut_at"`
 	RST       bool   `json:"rst"`
-	Pauses    int    `json:"pauses"` // fault none: number of pauses while the response is being written
+	Pauses    int    `json:"pauses"`                // fault none: number of pauses while the response is being written
+	Early     bool   `json:"early_hints,omitempty"` // fault none: the backend sends 103 Early Hints before its response
+	Behind    string `json:"behind,omitempty"`      // the forwarder sits behind another oxy middleware: "" | breaker | rebalancer
 }
 
 type c16Backend struct {
@@ -123,6 +127,23 @@ func (b *c16Backend) serve() {
 			}
 			full := b.wire()
 			switch p.Fault {
+			case "stall-mid-head":
+				// the beginning of the response head, then silence until the peer goes away
+				// (whole lines only: net/textproto turns a timeout in the middle of a line into a "malformed header" error,
+				// which no longer carries the timeout and is outside what the forwarder can classify)
+				var ends []int
+				for k := 0; k+1 < len(b.head)-2; k++ {
+					if b.head[k] == '\r' && b.head[k+1] == '\n' {
+						ends = append(ends, k+2)
+					}
+				}
+				cutAt := ends[p.CutAt%len(ends)]
+				_, _ = conn.Write(full[:cutAt])
+				buf := make([]byte, 1)
+				_ = conn.SetReadDeadline(time.Now().Add(20 * time.Second))
+				_, _ = br.Read(buf)
+				conn.Close()
+				return
 			case "cut-head":
 				_, _ = conn.Write(full[:min(p.CutAt, len(b.head)-1)])
 				closeConn(conn, p.RST)
@@ -146,6 +167,9 @@ func (b *c16Backend) serve() {
 				_, _ = br.Read(buf)
 				conn.Close()
 				return
+			}
+			if p.Early {
+				_, _ = conn.Write([]byte("HTTP/1.1 103 Early Hints\r\nLink: </style.css>; rel=preload\r\n\r\n"))
 			}
 			if p.Pauses > 0 {
 				// flush pattern: the response is written in pieces with pauses in between
@@ -240,6 +264,16 @@ func c16Relay(c *Ctx) {
 	fwd.Transport = &http.Transport{ResponseHeaderTimeout: 45 * time.Second, DisableKeepAlives: true, MaxIdleConns: -1}
 	fwdStall := forward.New(false)
 	fwdStall.Transport = &http.Transport{ResponseHeaderTimeout: 150 * time.Millisecond, DisableKeepAlives: true, MaxIdleConns: -1}
+	// a third one detects a silent backend on the connection itself (idle read deadline installed by the dialer), the way
+	// deployments with an idle-timeout connection wrapper do: used only for the "stall-mid-head" fault
+	fwdIdle := forward.New(false)
+	fwdIdle.Transport = &http.Transport{DisableKeepAlives: true, MaxIdleConns: -1, DialContext: func(ctx context.Context, network, addr string) (net.Conn, error) {
+		conn, err := (&net.Dialer{}).DialContext(ctx, network, addr)
+		if err != nil {
+			return nil, err
+		}
+		return idleConn{conn, 300 * time.Millisecond}, nil
+	}}
 	// observe which error the reverse proxy hands to oxy's standard error handler (the handler itself is unchanged)
 	origErrHandler := fwd.ErrorHandler // whatever forward.New installed stays in charge
 	recErrHandler := func(w http.ResponseWriter, req *http.Request, err error) {
@@ -257,6 +291,7 @@ func c16Relay(c *Ctx) {
 	}
 	fwd.ErrorHandler = recErrHandler
 	fwdStall.ErrorHandler = recErrHandler
+	fwdIdle.ErrorHandler = recErrHandler
 	listen := func(u *url.URL, state int) {
 		id := u.Query().Get("id")
 		mu.Lock()
@@ -267,6 +302,41 @@ func c16Relay(c *Ctx) {
 	}
 	sl := forward.NewStateListener(fwd, listen)
 	slStall := forward.NewStateListener(fwdStall, listen)
+	slIdle := forward.NewStateListener(fwdIdle, listen)
+	// the same forwarder as deployments have it: behind a circuit breaker that never trips, or as the handler of a
+	// rebalanced round-robin whose single server entry is a placeholder (the handler keeps the URL it was given)
+	behindBreaker, err := cbreaker.New(sl, "NetworkErrorRatio() > 1.5")
+	if err != nil {
+		c.Inconclusive("cbreaker.New: " + err.Error())
+		return
+	}
+	var behindRebalancer http.Handler
+	{
+		keepURL := http.HandlerFunc(func(w http.ResponseWriter, req *http.Request) {
+			if t := req.Header.Get("X-Backend"); t != "" {
+				req.Header.Del("X-Backend")
+				if u, err := url.Parse(t); err == nil {
+					req.URL = u // the balancer substituted its placeholder server URL: put the real target back
+				}
+			}
+			sl.ServeHTTP(w, req)
+		})
+		rr, err := roundrobin.New(keepURL)
+		if err != nil {
+			c.Inconclusive("roundrobin.New: " + err.Error())
+			return
+		}
+		rb, err := roundrobin.NewRebalancer(rr)
+		if err != nil {
+			c.Inconclusive("NewRebalancer: " + err.Error())
+			return
+		}
+		_ = rb.UpsertServer(mustURL("http://placeholder.invalid"))
+		behindRebalancer = http.HandlerFunc(func(w http.ResponseWriter, req *http.Request) {
+			req.Header.Set("X-Backend", req.URL.String())
+			rb.ServeHTTP(w, req)
+		})
+	}
 	proxy := newTestServer(http.HandlerFunc(func(w http.ResponseWriter, req *http.Request) {
 		id := req.URL.Query().Get("id")
 		mu.Lock()
@@ -281,6 +351,21 @@ func c16Relay(c *Ctx) {
 		target := req.Header.Get("X-Target")
 		req.Header.Del("X-Target")
 		req.URL = &url.URL{Scheme: "http", Host: target, Path: req.URL.Path, RawQuery: req.URL.RawQuery}
+		switch req.Header.Get("X-Behind") {
+		case "breaker":
+			req.Header.Del("X-Behind")
+			behindBreaker.ServeHTTP(&statusRec{w, &mu, &res.code}, req)
+			return
+		case "rebalancer":
+			req.Header.Del("X-Behind")
+			behindRebalancer.ServeHTTP(&statusRec{w, &mu, &res.code}, req)
+			return
+		}
+		if req.Header.Get("X-Stall") == "idle" {
+			req.Header.Del("X-Stall")
+			slIdle.ServeHTTP(&statusRec{w, &mu, &res.code}, req)
+			return
+		}
 		if req.Header.Get("X-Stall") != "" {
 			req.Header.Del("X-Stall")
 			slStall.ServeHTTP(&statusRec{w, &mu, &res.code}, req)
@@ -292,7 +377,7 @@ func c16Relay(c *Ctx) {
 	client := &http.Client{Transport: &http.Transport{DisableKeepAlives: true}, Timeout: 60 * time.Second,
 		CheckRedirect: func(*http.Request, []*http.Request) error { return http.ErrUseLastResponse }}
 
-	faults := []string{"none", "none", "none", "refuse", "close-accept", "close-after-request", "rst-after-request", "cut-head", "garbage-head", "cut-body", "cut-before-last-chunk", "stall", "cancel-before-head", "cancel-mid-body"}
+	faults := []string{"none", "none", "none", "refuse", "close-accept", "close-after-request", "rst-after-request", "cut-head", "garbage-head", "cut-body", "cut-before-last-chunk", "stall", "cancel-before-head", "cancel-mid-body", "stall-mid-head"}
 	n := c.N(len(faults)*50, len(faults)*1200)
 	c.Cases("case", n, func(i int, r *rand.Rand) {
 		p := c16Plan{Fault: faults[i%len(faults)], NHeaders: r.IntN(11), RST: r.IntN(2) == 0}
@@ -317,6 +402,12 @@ func c16Relay(c *Ctx) {
 		if p.Fault == "none" && r.IntN(3) == 0 {
 			p.Pauses = 1 + r.IntN(12)
 		}
+		if p.Fault == "none" && r.IntN(4) == 0 {
+			p.Early = true
+		}
+		if (p.Fault == "none" || p.Fault == "refuse" || p.Fault == "close-after-request") && r.IntN(3) == 0 {
+			p.Behind = pick(r, []string{"breaker", "rebalancer"})
+		}
 		p.ChunkSize = pick(r, []int{1, 7, 512, 4096, 65536, 0})
 		if p.BodyLen > 100000 && p.ChunkSize < 512 {
 			p.ChunkSize = 4096
@@ -336,7 +427,7 @@ func c16Relay(c *Ctx) {
 				p.BodyLen = 400000 + r.IntN(400000) // larger than the socket buffers so that the proxy is really mid-copy
 			}
 		}
-		if p.Fault == "cut-head" {
+		if p.Fault == "cut-head" || p.Fault == "stall-mid-head" {
 			p.CutAt = 1 + r.IntN(40)
 		}
 		back, err := newC16Backend(r, p, uint64(i)+c.Seed)
@@ -358,6 +449,13 @@ func c16Relay(c *Ctx) {
 		defer cancel()
 		req, _ := http.NewRequestWithContext(ctx, "GET", proxy.URL+"/r?id="+id, nil)
 		req.Header.Set("X-Target", back.l.Addr().String())
+		if p.Fault == "stall-mid-head" {
+			req.Header.Set("X-Stall", "idle")
+		}
+		if p.Behind != "" {
+			req.Header.Set("X-Behind", p.Behind)
+			c.Count("cases_behind_"+p.Behind, 1)
+		}
 		if p.Fault == "stall" {
 			req.Header.Set("X-Stall", "1")
 		}
@@ -460,6 +558,11 @@ func c16Relay(c *Ctx) {
 				c.Violation(key, sfmt("fault %s (no response byte received from the backend): client saw status %d (client error %v), want 502; error given to the error handler: %q", p.Fault, status, cr.err, errTxt), p)
 				return
 			}
+		case "stall-mid-head":
+			if status != http.StatusGatewayTimeout {
+				c.Violation("mapping/timeout-504", sfmt("backend sent the beginning of its response head and then stalled; the idle deadline on the backend connection expired: client saw status %d err %v, want 504; error given to the error handler: %q", status, cr.err, errTxt), p)
+				return
+			}
 		case "stall":
 			if status != http.StatusGatewayTimeout {
 				c.Violation("mapping/timeout-504", sfmt("backend stalled beyond the response-header timeout: client saw status %d err %v, want 504", status, cr.err), p)
@@ -555,7 +658,7 @@ type refusedListener struct {
 }
 
 func (r *refusedListener) Accept() (net.Conn, error) { return nil, net.ErrClosed }
-func (r *refusedListener) Close() error               { r.release(); return nil }
+func (r *refusedListener) Close() error              { r.release(); return nil }
 func (r *refusedListener) Addr() net.Addr {
 	a, _ := net.ResolveTCPAddr("tcp4", r.addr)
 	return a
@@ -714,4 +817,15 @@ func c16ConcRelay(c *Ctx) {
 		c.Count("concrelay_nontrivial", 1)
 	})
 	c.Require("concrelay_nontrivial", 2)
+}
+
+// idleConn: a backend connection with an idle timeout (read deadline renewed before every read).
+type idleConn struct {
+	net.Conn
+	d time.Duration
+}
+
+func (c idleConn) Read(p []byte) (int, error) {
+	_ = c.Conn.SetReadDeadline(time.Now().Add(c.d))
+	return c.Conn.Read(p)
 }
